@@ -425,6 +425,13 @@ def run(ctx) -> None:
     sub = prog.function(sub_fq)
     subs = [c for c in ast.walk(sub.node) if isinstance(c, ast.Call) and unparse(c.func) == "re.sub"]
     ctx.require(len(subs) == 1, f"{sub_name} no longer a single re.sub")
+    sp = sub.params[0]
+    rebound = [st for st, tg, _v in shapes.iter_assigns(sub.node) if unparse(tg) == sp]
+    arg3 = subs[0].args[2] if len(subs[0].args) > 2 else None
+    ctx.check("R3", not rebound and arg3 is not None and unparse(arg3) == sp, f"{sub_name}: the shorthand is expanded in the message as given (`{sp}`)",
+              f"cli.{sub_name}: the command-line message is edited besides the OLD/NEW shorthand",
+              f"`{unparse(rebound[0]) if rebound else unparse(subs[0])}`: e.g. quote characters or blanks at the ends of --commit-message / --tag-message are lost on the way to git",
+              loc=sub.loc(rebound[0] if rebound else subs[0]), witness={"--commit-message": 'bump to "NEW"'})
     pat, rep = const_str(subs[0].args[0]), const_str(subs[0].args[1])
     ctx.check("R3", pat == r"\b(OLD|NEW)\b" and rep == r"{\1_VERSION}",
               "_sub_msg_template maps \\b(OLD|NEW)\\b to {\\1_VERSION}",
